@@ -1,6 +1,7 @@
 /-
   C05 — a moving target stays on its source until the destination has scraped it.
 -/
+import Kvass.Pins.Coord
 import Kvass.Proofs.CoordKeep
 
 namespace Kvass.Props.C05
